@@ -29,7 +29,7 @@ for i in sorted(os.listdir(bd)):
             res[p] = {'exit': rc, 'first': fam[0][:300] if fam else ''}
     mp = os.path.join(d, 'meta.json')
     m = json.load(open(mp)) if os.path.exists(mp) else {'id': i, 'property': own}
-    m['other_checks'] = res
+    m.setdefault('other_checks', {}).update(res)
     json.dump(m, open(mp, 'w'), indent=1, sort_keys=True)
     print(i, {p: r['exit'] for p, r in res.items()}, [r['first'][:200] for r in res.values() if r['exit']], flush=True)
     S.sh('rm -rf /tmp/verif_out_*')
